@@ -201,11 +201,12 @@ def judgeBQ (bs : List (Bucket F64)) (obsd : List (F64 × XR)) : Option String :
       let startOf (b : Nat) : XR :=
         if b ≥ n - 1 then ub (n - 2) else if b = 0 then (if xle ub0 (.fin 0) then ub0 else .fin 0) else ub (b - 1)
       let endOf (b : Nat) : XR := if b ≥ n - 1 then ub (n - 2) else ub b
+      let tiny : Rat := 1 / (2 ^ 1074 : Nat)
       -- the documented NaN cases do not apply: a NaN is a hole
       let c0 := (cs.head?).getD 0
       match ladder.find? (fun (_, r) => r == .nan) with
       | some (q, _) =>
-        if q * obsN = 0 ∧ c0 = 0 ∧ xlt (.fin 0) ub0 then
+        if q * obsN < tiny ∧ c0 = 0 ∧ xlt (.fin 0) ub0 then
           some s!"bq-nan-rank0-empty-first-bucket q={showX (.fin q)} ub0={showX ub0} (0/0 in the interpolation)"
         else some s!"bq-nan-hole q={showX (.fin q)}"
       | none =>
@@ -216,7 +217,8 @@ def judgeBQ (bs : List (Bucket F64)) (obsd : List (F64 × XR)) : Option String :
         let slack : Rat := 1 / 100000000000   -- 1e-11
         ladder.findSome? fun (q, r) =>
           let rank := q * obsN
-          let bLo := firstGE (cs.map fun c => c * (1 + slack)) (rank * (1 - slack))
+          -- a rank below the smallest subnormal is 0 for the code (q*observations underflows)
+          let bLo := firstGE (cs.map fun c => c * (1 + slack)) (if rank < tiny then 0 else rank * (1 - slack))
           let bHi := firstGE (cs.map fun c => c * (1 - slack)) (rank * (1 + slack))
           let lo := startOf bLo
           let hi := endOf bHi
